@@ -396,6 +396,19 @@ def bank(focus=None):
             bad.append(f"silent peer not answered 40 and closed: {r['out'][:40]!r} closed={r['closed']}")
         if bad:
             return dict(confirmed=True, input=dict(received=repr(line), event="request timer fires"), observed=dict(violated=bad), clause="silent peers are disconnected with a 40 response")
+    # the rest of the request arrives after the connection was answered by the timer (bytes in flight while the transport closes)
+    for first, rest, chain_ in ((b"titan://example.org/up.txt;size=10;mime=text/plain\r\nhello", b"world", None), (b"titan://example.org/up.txt;size=10;mime=text/plain\r\nhello", b"world", "allow"),
+                                (b"gemini://example.org/pa", b"ge\r\n", None), (b"gemini://example.org/pa", b"ge\r\n", "allow")):
+        tried += 1
+        r = run(drive([first], "sync", "ok", chain_, "ok" if first.startswith(b"titan") else None, fire_timeout=0, extra_reads=[rest]))
+        bad = []
+        if r["handler_calls"] or r["upload_calls"] or r["chain_calls"]:
+            bad.append(f"a connection already answered {r['out'][:24]!r} still reached handler={r['handler_calls']} upload={r['upload_calls']} chain={r['chain_calls']}")
+        if judge_response(r["out"]):
+            bad.append(f"bytes on the wire are not one response: {r['out'][:60]!r}")
+        if bad:
+            return dict(confirmed=True, input=dict(first_read=repr(first), event="request timer fires", then_read=repr(rest), middleware=chain_), observed=dict(violated=bad),
+                        clause="a request answered with a non-success status reaches no handler (nothing stored, nothing read); at most one response")
     for line_, up_ in ((b"titan://example.org/up.txt;size=4;mime=text/plain\r\nabcd", "slow"), (b"titan://example.org/up.txt;size=4;mime=text/plain\r\n", "slow")):
         tried += 1
         parts_ = [line_] if line_.endswith(b"abcd") else [line_, b"abcd"]
